@@ -200,6 +200,8 @@ theorem eval_countE (hag : Agrees pb σ g) {b : List (Int × Int)} (hb : OnB pb 
     exact eval_cmp rfl (eval_cv hag (hb c hc)) (eval_litI σ 0))]
   rw [List.count_eq_countP, List.countP_map, List.countP_eq_length_filter]
   congr 4
+  apply List.filter_congr
+  intro x _; simp
 
 /-- The constraints of one region whose counter `n` holds the value `v`. -/
 theorem block_iff (hag : Agrees pb σ g) {b : List (Int × Int)} (hb : OnB pb b) (n : Nat) :
@@ -342,7 +344,7 @@ theorem good_firstCs : ∀ c ∈ firstCs pb, Good (pb.height * pb.width + pb.hei
   have h1 := good_cmp (n := pb.height * pb.width + pb.height * pb.width) .ne rfl
     (good_ans (cid_lt hy hx)) (good_lit _ 0)
   have hlt := C11Grid.cell_lt hy hx
-  refine ⟨by simp [firstE, wtB, wtBs, h1.1], ?_⟩
+  refine ⟨by simp [firstE, wtB, wtBs, wtIs, wtI, ansVar_eq], ?_⟩
   unfold firstE
   rw [C11FragWT.varsBelow_node]
   intro z hz; simp at hz; rcases hz with rfl | rfl
